@@ -62,3 +62,24 @@ void h_filter_obj(void) {
   VASSERT(o.f5 == 0, "nor below it");
   if (key[0] == 'a') VWITNESS("a"); else VWITNESS("other");
 }
+
+/* ---- C01/C14: key lookup in an object with one member. MLEN / LLEN (0..2) are part of the shape, the bytes are symbolic */
+#ifndef MLEN
+#define MLEN 1
+#endif
+#ifndef LLEN
+#define LLEN 1
+#endif
+void h_obj_find(void) {
+  uint8_t mk[3] = {0, 0, 0}, lk[3] = {0, 0, 0};
+  for (unsigned i = 0; i < MLEN; i++) mk[i] = vin_u8(); for (unsigned i = 0; i < LLEN; i++) lk[i] = vin_u8();
+  unsigned r = w_obj_find(mk, MLEN, lk, LLEN, lk);      /* lk is NUL-terminated inside its 3-byte buffer */
+  VASSUME(r != 99);
+  int same = MLEN == LLEN; for (unsigned i = 0; i < 2; i++) if (i < MLEN && i < LLEN && mk[i] != lk[i]) same = 0;
+  VASSERT((r & 1) == (unsigned)same, "a sized lookup finds the member iff the keys have the same length and bytes (empty key and NUL included)");
+  VASSERT(((r >> 2) & 1) == (unsigned)same, "obj[key] through the public API agrees");
+  unsigned zl = 0; { int e = 0; for (unsigned i = 0; i < 3; i++) if (!e) { if (lk[i] == 0) e = 1; else zl++; } }
+  int zsame = zl == MLEN; for (unsigned i = 0; i < 2; i++) if (i < MLEN && i < zl && mk[i] != lk[i]) zsame = 0;
+  VASSERT(((r >> 1) & 1) == (unsigned)zsame, "a zero-terminated lookup finds the member iff the C string equals the whole key");
+  if (same) VWITNESS("found"); else VWITNESS("absent");
+}
